@@ -158,3 +158,169 @@ Fixpoint trace (chk : bool) (b : book) (ops : list op) : list obsv :=
 (* A case: the overflow mode of the build and the operations applied to a fresh book. *)
 Definition run_case (c : bool * list op) : obsv :=
   let '(chk, ops) := c in OL (trace chk [] ops).
+
+(* ------------------------------------------------------------------ *)
+(* Gossip of the book: gossip/runner.rs (push loop of run_stream, PushServer) and the dial loop
+   of consensus/mod.rs (maintain_connection). *)
+
+(* ValidatorAddrs::get_newer: the entries of [new] that are newer than the entry of the same key
+   in [old] (or have no entry there). *)
+Definition get_newer (new old : book) : list entry :=
+  filter (fun v => match get (ekey v) old with
+                   | Some bv => is_newer (emsg v) (emsg bv)
+                   | None => true
+                   end) new.
+
+(* One iteration of "Push validator addrs updates to peer" for a connection whose last pushed
+   state is [old]:  diff = new.get_newer(&old); if diff.is_empty() { continue }; old = new; call. *)
+Definition push_step (new old : book) : book * option (list entry) :=
+  match get_newer new old with
+  | [] => (old, None)
+  | diff => (new, Some diff)
+  end.
+
+(* PushServer::handle for push_validator_addrs under schedule c: the response is () or the
+   handler fails (the peer sees the stream closed). *)
+Definition serve_push (c : list Z) (req : list entry) (b : book) : book * bool :=
+  let '(b', r) := update_watch c req b in (b', is_ok r).
+
+(* Deterministic execution of a small network for the correspondence: nodes with books, each with
+   a scripted observer connection ([nobs] = what the node last pushed to it) and directed links
+   between nodes. *)
+Record link := { lsrc : nat; ldst : nat; lold : book }.
+Record net := { nbooks : list book; nobs : list book; nlinks : list link }.
+
+Fixpoint set_nth {A} (n : nat) (x : A) (l : list A) : list A :=
+  match l, n with
+  | [], _ => []
+  | _ :: t, O => x :: t
+  | h :: t, S n' => h :: set_nth n' x t
+  end.
+Definition bk (bs : list book) (i : nat) : book := nth i bs [].
+
+Definition is_some {A} (o : option A) : bool := match o with Some _ => true | None => false end.
+
+(* every node runs its push loop towards its observer *)
+Fixpoint obs_round (books obs : list book) : list book * list (list entry) :=
+  match books, obs with
+  | b :: books', o :: obs' =>
+      let '(o', d) := push_step b o in
+      let '(os, ds) := obs_round books' obs' in
+      (o' :: os, match d with Some diff => diff | None => [] end :: ds)
+  | _, _ => ([], [])
+  end.
+
+(* every link runs its push loop once; a request is served by the destination at once *)
+Fixpoint links_round (c : list Z) (books : list book) (ls : list link) : list book * list link * bool :=
+  match ls with
+  | [] => (books, [], false)
+  | l :: ls' =>
+      let '(old', d) := push_step (bk books (lsrc l)) (lold l) in
+      let books' := match d with
+                    | Some diff => set_nth (ldst l) (fst (serve_push c diff (bk books (ldst l)))) books
+                    | None => books
+                    end in
+      let '(books'', ls'', ch) := links_round c books' ls' in
+      (books'', {| lsrc := lsrc l; ldst := ldst l; lold := old' |} :: ls'', ch || is_some d)
+  end.
+
+Fixpoint app_each {A} (a b : list (list A)) : list (list A) :=
+  match a, b with
+  | x :: a', y :: b' => (x ++ y) :: app_each a' b'
+  | _, [] => a
+  | [], _ => b
+  end.
+
+(* rounds until no link has anything to push; returns what the observers received *)
+Fixpoint settle (fuel : nat) (c : list Z) (n : net) (acc : list (list entry)) : net * list (list entry) * bool :=
+  match fuel with
+  | O => (n, acc, false)
+  | S fuel' =>
+      let '(obs', ds) := obs_round (nbooks n) (nobs n) in
+      let '(books', links', ch) := links_round c (nbooks n) (nlinks n) in
+      let n' := {| nbooks := books'; nobs := obs'; nlinks := links' |} in
+      let acc' := app_each acc ds in
+      if ch then settle fuel' c n' acc'
+      else
+        (* the links are quiet; the observers still have to hear of the last changes *)
+        let '(obs'', ds') := obs_round books' obs' in
+        ({| nbooks := books'; nobs := obs''; nlinks := links' |}, app_each acc' ds', true)
+  end.
+
+(* a request of the scripted peer to node i, then the exchange until quiescence *)
+Definition inject (c : list Z) (i : nat) (d : list entry) (n : net) (acc : list (list entry))
+  : net * list (list entry) * bool * bool :=
+  let '(b', ok) := serve_push c d (bk (nbooks n) i) in
+  let n1 := {| nbooks := set_nth i b' (nbooks n); nobs := nobs n; nlinks := nlinks n |} in
+  let '(n2, acc', quiet) := settle 8 c n1 acc in
+  (n2, acc', ok, quiet).
+
+(* canonical order of a list of entries: by (key, version, timestamp, address) *)
+Definition entry_leb (a b : entry) : bool :=
+  if ekey a =? ekey b then
+    if na_version (emsg a) =? na_version (emsg b) then
+      if na_ts (emsg a) =? na_ts (emsg b) then na_addr (emsg a) <=? na_addr (emsg b)
+      else na_ts (emsg a) <? na_ts (emsg b)
+    else na_version (emsg a) <? na_version (emsg b)
+  else ekey a <? ekey b.
+Fixpoint insert_entry (e : entry) (l : list entry) : list entry :=
+  match l with
+  | [] => [e]
+  | x :: l' => if entry_leb e x then e :: l else x :: insert_entry e l'
+  end.
+Definition sort_entries (l : list entry) : list entry := fold_right insert_entry [] l.
+
+(* consensus::maintain_connection of a validator node with own key [self]: which addresses it
+   newly dials when its book goes from [b] to [b'] (for every other member of the schedule, the
+   address of the book if it differs from the one it had). *)
+Definition new_dials (c : list Z) (self : Z) (b b' : book) : list Z :=
+  flat_map (fun k => if k =? self then [] else
+                     match dial b' k with
+                     | Some a => if match dial b k with Some a0 => a0 =? a | None => false end
+                                 then [] else [a]
+                     | None => []
+                     end) c.
+
+Fixpoint insert_z (x : Z) (l : list Z) : list Z :=
+  match l with
+  | [] => [x]
+  | y :: l' => if x <? y then x :: l else if x =? y then l else y :: insert_z x l'
+  end.
+
+(* One scripted case: committee, number of nodes (node 0 keeps a connection to node 1 over which
+   both push), the own validator key of node 0 if it dials, the barrier announcements' key and
+   address, and the requests (target node, batch).  Every request is followed by the barrier
+   announcement of version (index + 1). *)
+Record net_case := {
+  nc_committee : list Z; nc_nodes : nat; nc_dialer : option Z;
+  nc_sentinel : Z; nc_sentinel_addr : Z; nc_ops : list (nat * list entry) }.
+
+Fixpoint run_net_ops (nc : net_case) (ver : Z) (n : net) (ops : list (nat * list entry)) : list obsv * net :=
+  match ops with
+  | [] => ([], n)
+  | (i, d) :: ops' =>
+      let c := nc_committee nc in
+      let b0 := bk (nbooks n) 0 in
+      let '(n1, acc1, ok, q1) := inject c i d n (map (fun _ => []) (nbooks n)) in
+      let s := sign (nc_sentinel nc) {| na_addr := nc_sentinel_addr nc; na_version := ver; na_ts := 0 |} in
+      let '(n2, acc2, ok2, q2) := inject c i [s] n1 acc1 in
+      let dials := match nc_dialer nc with
+                   | Some self => fold_right insert_z [] (new_dials c self b0 (bk (nbooks n2) 0))
+                   | None => []
+                   end in
+      let o := OL [ OZ (if ok then 0 else 1);
+                    OL (map (fun l => obs_book (sort_entries l)) acc2);
+                    ozs dials;
+                    ob (ok2 && q1 && q2) ] in
+      let '(os, n3) := run_net_ops nc (ver + 1) n2 ops' in
+      (o :: os, n3)
+  end.
+
+Definition run_net_case (nc : net_case) : obsv :=
+  let books := repeat ([] : book) (nc_nodes nc) in
+  let links := match nc_nodes nc with
+               | 2%nat => [ {| lsrc := 0; ldst := 1; lold := [] |}; {| lsrc := 1; ldst := 0; lold := [] |} ]
+               | _ => []
+               end in
+  let '(os, n) := run_net_ops nc 1 {| nbooks := books; nobs := books; nlinks := links |} (nc_ops nc) in
+  OL [OL os; OL (map obs_book (nbooks n))].
